@@ -104,6 +104,7 @@ struct Program
     std::string source_text;  // literal JSON text the input is read from (family legacy)
     bool file_entry = false;  // also exercise the file-name entry points of OrangeParams
     int nav_per_class = 0;  // >0: navigate only this many programs per structure class
+    bool expect_throw = false;  // make() must throw (text the reader is documented to refuse)
 };
 
 //---------------------------------------------------------------------------//
